@@ -27,7 +27,7 @@ import (
 func init() {
 	core.Register(&core.Check{
 		ID: "C04", Level: "fault_enumeration",
-		Technique: "fault injection at every resolver invocation and list element (single-fault enumeration over 19 adversarial outcome kinds, then random multi-fault tables) with an intrinsic schema-conformance monitor on the response plus a differential against the reference executor for everything outside the faulted position",
+		Technique: "fault injection at every resolver invocation and list element (single-fault enumeration over 22 adversarial outcome kinds, then random multi-fault tables) with an intrinsic schema-conformance monitor on the response plus a differential against the reference executor for everything outside the faulted position",
 		Rule: "case = (schema, valid document, variables, outcome table); single-fault enumeration places each applicable adversarial outcome kind at each of the n (<= 40) invocation / list-element positions of the fault-free execution; " +
 			"non-trivial: the fault position was actually reached (the instrumented resolver logged the injected outcome, or the element exists) ; distinct by hash(schema, document, variables, outcome table)",
 		Assumptions: []string{
@@ -95,7 +95,8 @@ func latticeModel() *model.Schema {
 
 var faultKinds = []values.Kind{values.Nil, values.Error, values.ValueError, values.PanicError, values.PanicString, values.PanicStruct,
 	values.ThunkValue, values.ThunkNil, values.ThunkError, values.ThunkPanic, values.TypedNil, values.WrongKind, values.NaN,
-	values.OutOfRange, values.UnknownEnum, values.BadRuntimeType, values.NilRuntimeType, values.IsTypeOfFalse, values.ThunkThunk}
+	values.OutOfRange, values.UnknownEnum, values.BadRuntimeType, values.NilRuntimeType, values.IsTypeOfFalse, values.ThunkThunk,
+	values.Inf, values.NumericString, values.SerializeToNil}
 
 var elementKinds = []values.Kind{values.Nil, values.ThunkValue, values.ThunkNil, values.ThunkError, values.BadRuntimeType, values.NilRuntimeType, values.IsTypeOfFalse}
 
@@ -112,7 +113,8 @@ type caseInfo struct {
 
 func wildKind(k values.Kind) bool {
 	switch k {
-	case values.WrongKind, values.OutOfRange, values.UnknownEnum, values.BadRuntimeType, values.NilRuntimeType, values.IsTypeOfFalse, values.ThunkThunk:
+	case values.WrongKind, values.OutOfRange, values.UnknownEnum, values.BadRuntimeType, values.NilRuntimeType, values.IsTypeOfFalse, values.ThunkThunk,
+		values.Inf, values.NumericString, values.SerializeToNil:
 		return true
 	}
 	return false
